@@ -9,11 +9,13 @@ import (
 	"io"
 
 	"reduction.dev/reduction/dkv/bloom"
+	"reduction.dev/reduction/dkv/fields"
 	"reduction.dev/reduction/dkv/kv"
 	"reduction.dev/reduction/dkv/storage"
 )
 
 var _ *bloom.Filter
+var _ = fields.ReadVarBytes
 
 var _ io.Reader
 var _ storage.File
@@ -187,13 +189,19 @@ var ghostRecNext func(d []byte, o int) int
 //@   trusted
 //@   modifies t.metadataLoaded, t.filter, t.searchIndex
 
+// The storage layer never reports the key-value layer's "not found" as an I/O failure.
+//@ axiom ioFailureIsNotNotFound
+//@   ensures !fields.ghostIOFailure(kv.ErrNotFound)
+
 // Table.Get. For C07 a table is a function of its key (assumed clauses, as before; there the lazy
 // load of the table's own footer on first use is not treated as a change of state). Record level,
 // proved: on a well-formed file the scan visits records only (the cursor is at a record start
 // before every record it reads - a reader that skips value bytes of a tombstone, or forgets
 // them for a live entry, leaves the record grid); an entry it returns is the decoded record
-// at a record start whose key equals the target; and it gives up only after every record of
-// the index interval [start, end) was compared.
+// at a record start whose key equals the target; and it reports "not found" only after the scan
+// has left the index interval [start, end) or reached the end of the records (checks clause) -
+// in particular a matching tombstone is returned as a delete entry, never as "not found" (the
+// level list keeps looking in older tables on "not found": the deleted value would come back).
 //@ func Table.Get
 //@   property C17
 //@   nosafety
@@ -211,6 +219,7 @@ var ghostRecNext func(d []byte, o int) int
 //@           len(result0.(*Entry).key) == ghostLE32(tblData(t), o) && forall(0, len(result0.(*Entry).key), func(i int) bool { return result0.(*Entry).key[i] == tblData(t)[o+4+i] }) &&
 //@           !ghostRecTomb(tblData(t), o) && len(result0.(*Entry).value) == ghostLE32(tblData(t), ghostRecValAt(tblData(t), o)) &&
 //@           forall(0, len(result0.(*Entry).value), func(i int) bool { return result0.(*Entry).value[i] == tblData(t)[ghostRecValAt(tblData(t), o)+4+i] }) })
+//@   checks result1 == kv.ErrNotFound && called(Search) ==> io.Reader(cur).pos >= int(end) || io.Reader(cur).pos == len(tblData(t))
 //@   loop 0:
 //@     invariant same(io.Reader(cur).data, tblData(t))
 //@     invariant tblWF(t) ==> 0 <= io.Reader(cur).pos && io.Reader(cur).pos <= len(tblData(t)) && ghostRecStart(tblData(t), io.Reader(cur).pos) &&
@@ -442,6 +451,22 @@ var ghostLevelOf func(ll *LevelList, t *Table) int
 //@     invariant forall(idx_, len(ll.levels), func(i int) bool { return same(ll.levels[i], old(ll.levels)[i]) })
 //@     invariant forall(0, idx_, func(i int) bool { return setOK(ll.levels[i].tables) && ll.levels[i].Num == old(ll.levels)[i].Num &&
 //@           forall(func(x *Table) bool { return has(ll.levels[i].tables.m, x) == (has(old(ll.levels)[i].tables.m, x) && !inList(tables, x)) }) })
+
+// A layout built from the tables of a checkpoint knows the HIGHEST sequence number any of its
+// tables ends with (the restored database continues numbering above it - C08, C03).
+//@ func NewLevelListOfTables
+//@   property C08 C03 C18
+//@   nosafety
+//@   requires forall(0, len(tables), func(i int) bool { return forall(0, len(tables[i]), func(j int) bool { return tables[i][j] != nil }) })
+//@   ensures result != nil && len(result.levels) == len(tables)
+//@   ensures forall(0, len(tables), func(i int) bool { return forall(0, len(tables[i]), func(j int) bool { return result.LatestSeqNum >= tables[i][j].endSeqNum }) })
+//@   loop 0:
+//@     invariant len(levels) == len(tables)
+//@     invariant forall(0, i, func(a int) bool { return forall(0, len(tables[a]), func(j int) bool { return latestSeqNum >= tables[a][j].endSeqNum }) })
+//@   loop 1:
+//@     invariant len(levels) == len(tables)
+//@     invariant forall(0, i, func(a int) bool { return forall(0, len(tables[a]), func(j int) bool { return latestSeqNum >= tables[a][j].endSeqNum }) })
+//@     invariant forall(0, idx_, func(j int) bool { return latestSeqNum >= tables[i][j].endSeqNum })
 
 // (The new layout gets a COPY of the level array - slices.Clone - before anything is changed: in
 // the engine's value semantics of slices a shared backing array is invisible, so the copy itself
